@@ -57,7 +57,10 @@ type Projector struct {
 	lastCols  []any // oids of the last RowDescription (for decoding rows)
 	lastFmts  []any
 	ColOids   func() []int // optional: column oids of the running statement (extended protocol without Describe)
-	Keep      func(rec M) M
+	Proj      *Projection
+	SkipPre   bool // replace the startup/auth/parameter preamble by one synthetic event (preamble rule)
+	preDone   bool
+	preMsg    M
 	Out       []M
 	TLS       bool // after 'S': the raw stream is TLS records; protocol messages come from the TLS client
 	wireBytes int
@@ -66,6 +69,27 @@ type Projector struct {
 // Feed consumes one raw event.
 func (p *Projector) Feed(e mem.Ev) {
 	if c, has := e["conn"]; has && AsInt(c) != p.Conn && p.Conn != 0 {
+		return
+	}
+	if p.SkipPre && !p.preDone {
+		switch e["k"] {
+		case "send":
+			if m := AsM(e["m"]); S(m, "t") == "Startup" {
+				p.preMsg = m
+			}
+		case "write":
+			before := len(p.Out)
+			p.bytes(e["b"].([]byte))
+			for _, o := range p.Out[before:] {
+				if o["k"] == "recv" && S(AsM(o["m"]), "t") == "Z" && p.preMsg != nil {
+					p.preDone = true
+				}
+			}
+			p.Out = p.Out[:before]
+			if p.preDone {
+				p.Out = append(p.Out, M{"k": "preamble", "m": Clean(p.preMsg)})
+			}
+		}
 		return
 	}
 	switch e["k"] {
@@ -78,7 +102,7 @@ func (p *Projector) Feed(e mem.Ev) {
 	case "write":
 		p.bytes(e["b"].([]byte))
 	case "cb":
-		p.Out = append(p.Out, M{"k": "cb", "c": Clean(e["c"])})
+		p.Out = append(p.Out, M{"k": "cb", "c": p.Proj.KeepCb(AsM(Clean(e["c"])))})
 	case "idle":
 		p.Out = append(p.Out, M{"k": "idle"})
 	case "close":
@@ -137,7 +161,13 @@ func (p *Projector) flushPartial() {
 }
 
 // Finish flushes a trailing partial frame.
-func (p *Projector) Finish() { p.flushPartial() }
+func (p *Projector) Finish() {
+	if p.SkipPre && !p.preDone {
+		p.Out = append(p.Out, M{"k": "dead"})
+		return
+	}
+	p.flushPartial()
+}
 
 func fatalSev(s string) bool { return s == "FATAL" || s == "PANIC" }
 
@@ -185,10 +215,7 @@ func (p *Projector) abstract(m pgw.Msg) M {
 	}
 	delete(r, "_raw")
 	delete(r, "trailing")
-	if p.Keep != nil {
-		r = p.Keep(r)
-	}
-	return r
+	return p.Proj.KeepRecv(r)
 }
 
 // SetFormats tells the projector which result formats apply to the rows that
